@@ -241,6 +241,9 @@ func GenerateScript(seed uint64, prop, tier string, env *Env) *Script {
 	s.Config.CrashEnum = g.p.CrashEnum
 	s.Config.CrashSample = g.p.CrashSamp
 	s.Config.Genesis.TimeUnix = []int64{1700000000, 946684800, 4102444800, 1}[rng.Pick([]int{6, 1, 1, 1})]
+	if rng.Chance(0.06) {
+		s.Config.Genesis.ZeroTime = true // every header carries the zero time (a clock that never started)
+	}
 	if rng.Chance(0.5) || prop == "C07" {
 		s.Config.Genesis.ExtraDenoms = []string{"uatom", "ibc/27394FB092D2ECCD56123C74F36E4C1F926001CEADA9CA97EA622B25F41E5EB2"}[:rng.Range(1, 2)]
 	}
@@ -527,6 +530,9 @@ func (g *Gen) famAol() {
 		switch r.Pick([]int{3, 2, 8}) {
 		case 0:
 			w := g.addr(r.Intn(6))
+			if r.Chance(0.25) { // a writer need not be a 20-byte account: module/ADR-028 addresses are 32 bytes, any 1..255 is legal
+				w = sdk.AccAddress(Keyed(7, "oddwriter", uint64(r.Intn(6))).Bytes([]int{1, 19, 21, 32, 64, 255}[r.Intn(6)])).String()
+			}
 			g.tx(M("aol.AddWriter", "topic", t[1], "owner", t[0], "writer", w, "moniker", []string{"", "mon", "m-._", strings.Repeat("m", 70)}[r.Intn(4)], "desc", []string{"", "writer"}[r.Intn(2)]))
 		case 1:
 			if len(ws) > 0 {
@@ -947,6 +953,28 @@ func (g *Gen) famReplay() {
 	if len(g.didTx) > 0 && r.Chance(0.8) {
 		ref := g.didTx[r.Intn(len(g.didTx))]
 		orig := g.specs[ref.Tx]
+		if orig != nil && len(orig.Msgs) > 0 && r.Chance(0.35) {
+			// C11: the observed message re-targeted at another DID field (a fresh identifier, an existing one, a case variant)
+			var target string
+			switch r.Intn(3) {
+			case 0:
+				target = g.env.Dids[r.Intn(NumDidKeys)]
+			case 1:
+				if act := g.planDids(true); len(act) > 0 {
+					target = act[r.Intn(len(act))]
+				} else {
+					target = g.env.Dids[r.Intn(NumDidKeys)]
+				}
+			default:
+				target = caseVariant(ref.Did, r)
+			}
+			f := map[string]string{"did": target, "from": g.addr(r.Intn(NumAccounts))}
+			if r.Chance(0.2) {
+				f["as_update"] = "1"
+			}
+			g.emit(&TxSpec{Msgs: []MsgSpec{{T: "retarget", OfTx: ref.Tx, OfMsg: 0, F: f}}, Note: "observed DID message replayed under another DID"})
+			return
+		}
 		if orig != nil && len(orig.Msgs) > 0 {
 			// same inner message, same from_address (the original relayer signs again)
 			g.emit(&TxSpec{Msgs: []MsgSpec{{T: "reuse", OfTx: ref.Tx, OfMsg: 0}}, Note: "replay of accepted DID message"})
@@ -1325,6 +1353,15 @@ func (g *Gen) famTamper() {
 			honest = []MsgSpec{M("pnft.UpdateDenom", "id", d, "updater", owner)}
 			forged = []MsgSpec{M("pnft.DeleteDenom", "id", d, "remover", owner)}
 		}
+	case mode == 5 && len(g.planDenoms()) > 0:
+		// two messages of the same type; the forged list differs in ONE field of the FIRST message, same length
+		d := g.planDenoms()[r.Intn(len(g.planDenoms()))]
+		owner := g.plan.Denoms[d].Owner
+		a := fmt.Sprintf("ta%03d", g.next%1000)
+		c := fmt.Sprintf("tc%03d", g.next%1000)
+		b := fmt.Sprintf("tb%03d", g.next%1000)
+		mk := func(id string) MsgSpec { return M("pnft.Mint", "denom", d, "id", id, "name", "n", "creator", owner) }
+		honest, forged = []MsgSpec{mk(a), mk(b)}, []MsgSpec{mk(c), mk(b)}
 	default: // extra / removed / reordered message
 		o := g.addr(r.Intn(4))
 		a := M("aol.CreateTopic", "topic", fmt.Sprintf("tam%d", g.next), "owner", o)
